@@ -33,6 +33,26 @@ def reset_counter():
     _cnt = itertools.count()
 
 
+def save_state():
+    """registries of one path (sums, selections, extra axioms, fresh-name counter): posts of a path are
+    evaluated against the registries its execution filled"""
+    global _cnt
+    nxt = next(_cnt)
+    _cnt = itertools.count(nxt)
+    return dict(sums=SUMS, comp=COMP, extra=list(EXTRA), flat=dict(_FLAT), cnt=nxt)
+
+
+def restore_state(st):
+    global SUMS, COMP, _cnt
+    SUMS, COMP = st['sums'], st['comp']
+    EXTRA[:] = st['extra']
+    _FLAT.clear()
+    _FLAT.update(st['flat'])
+    _cnt = itertools.count(st['cnt'] + 1000)     # leave room: names created by the post never clash with the path's
+    del SCOPE[:]
+    DEPTH[0] = 0
+
+
 Str = z3.DeclareSort('Str')
 _lits = {}
 
@@ -860,7 +880,22 @@ PY_BIN = {'Add': _op.add, 'Sub': _op.sub, 'Mult': _op.mul, 'Div': _op.truediv, '
 PY_CMP = {'Eq': _op.eq, 'NotEq': _op.ne, 'Lt': _op.lt, 'LtE': _op.le, 'Gt': _op.gt, 'GtE': _op.ge}
 
 
+def _exact_div(a, b):
+    """quotient of two Python numbers under A3 (floats are mathematical reals): exact.  If the double quotient is
+    not exact (e.g. 1./365.) the result is the rational number as a z3 numeral."""
+    from fractions import Fraction
+    fa, fb = Fraction(str(a)) if isinstance(a, float) else Fraction(a), Fraction(str(b)) if isinstance(b, float) else Fraction(b)
+    q = fa / fb
+    d = q.denominator
+    if d & (d - 1) == 0 and d <= (1 << 30) and abs(q.numerator) < (1 << 52):
+        return a / b
+    return z3.Q(q.numerator, q.denominator)
+
+
 def binop(name, a, b):
+    if name == 'Div' and isinstance(a, (int, float)) and isinstance(b, (int, float)) and not isinstance(a, bool) \
+            and not isinstance(b, bool) and b != 0 and a == a and b == b and abs(a) != float('inf') and abs(b) != float('inf'):
+        return _exact_div(a, b)
     if isinstance(a, (list, tuple)) and isinstance(b, (list, tuple)) and name == 'Add':
         return a + b
     if isinstance(a, list) and isinstance(b, int) and name == 'Mult':
@@ -1119,7 +1154,7 @@ def arr_slice(a, lo, hi):
     if chi is not None and chi < 0:
         hi = binop('Add', n, chi)
     ln = binop('Sub', hi, lo)
-    if (clo is not None and clo < 0) or (chi is not None and chi < 0):
+    if (clo is not None and clo < 0) or (chi is not None and chi < 0) or (clo is not None and clo > 0 and concrete_int(hi) is None):
         # a negative bound can undershoot on short arrays: numpy then yields an empty slice
         ln = ite(cmpop('GtE', ln, 0), ln, 0)
     ln = simp(ln) if is_z3(ln) else ln
